@@ -19,6 +19,7 @@
     (main) grid is NOT consistent: the verdict of [inv_b], which decides the invariant [Inv] (InvDec.v). *)
 From Coq Require Import Ascii String List Bool PArith NArith FMapPositive.
 From PTBase Require Import Exn PyStr PyNum PyVal Wire.
+From Gen Require Import GenFlags.
 From P Require Import Assoc GridEdit InvDec.
 Import ListNotations.
 Open Scope list_scope.
@@ -208,14 +209,16 @@ Definition after_cmd (g : grid) (o : view) (c : cmd) : option (grid * view) :=
       if inv_b go then let g' := after go e in Some (with_view g' (view_of g), view_of g') else None
   | Sum _ => None
   | Emb false na nb fits =>
-      if inv_b g && inv_b (with_view g o) then
+      (* (relinking add_rocktype: the discarded sum has given operand blocks other rock type objects; not modelled: the case ends) *)
+      if negb add_rocktype_relinks && inv_b g && inv_b (with_view g o) then
         match bget g na, aget str_eqb (v_bdict o) nb with
         | Some i0, Some i1 => Some (after g (Embed o i0 i1 fits), o)
         | _, _ => Some (g, o)                                 (* KeyError in the caller's expression *)
         end
       else None
   | Emb true na nb fits =>
-      if inv_b g && inv_b (with_view g o) then
+      (* (relinking add_rocktype: the discarded sum has given operand blocks other rock type objects; not modelled: the case ends) *)
+      if negb add_rocktype_relinks && inv_b g && inv_b (with_view g o) then
         let g1 := new_block (new_block g na 1%positive) nb 1%positive in
         Some (after g1 (Embed o (next g) (Pos.succ (next g)) fits), o)
       else None
